@@ -1026,6 +1026,380 @@ pub fn reconstruct_pages<H: nomt_core::hasher::NodeHasher>(
     }))
 }
 
+/// Verification hook: drive the real `PageWalker` (with `build_trie`, `compact_up`,
+/// `handle_elision_threshold`, `reconstruct_pages`) over chosen batches on an in-memory page
+/// store, the way `merkle/worker.rs` drives it for a single worker: every key is sought through
+/// the stored pages as `seek.rs` does (elided pages are reconstructed on demand from the current
+/// key set), terminals below the root page go through a walker with the root page as parent,
+/// terminals in the root page and the child page roots go through the root page walker. The
+/// updated pages are applied to the store as the hash table would (cleared pages are dropped).
+/// Add-only, no change of behaviour.
+#[cfg(feature = "verif-hooks")]
+pub(crate) mod verif {
+    use super::{
+        reconstruct_pages, trie, BucketInfo, KeyPath, Node, NodeHasher, Output, Page, PageDiff,
+        PageId, PageMut, PageOrigin, PageSet, PageWalker, TriePosition, UpdatedPage, ValueHash,
+        DEPTH, PAGE_ELISION_THRESHOLD, ROOT_PAGE_ID,
+    };
+    use crate::{io::PagePool, store::SharedMaybeBucketIndex};
+    use bitvec::prelude::*;
+    use std::collections::{BTreeMap, HashMap};
+
+    pub const THRESHOLD: u64 = PAGE_ELISION_THRESHOLD;
+
+    /// The working page set of one batch.
+    struct WorkSet {
+        page_pool: PagePool,
+        map: HashMap<PageId, (Page, PageOrigin)>,
+        // how `fresh` pages look before the walker writes to them (pool pages are not zeroed).
+        garbage: u8,
+        counter: std::cell::Cell<u64>,
+    }
+
+    impl PageSet for WorkSet {
+        fn fresh(&self, page_id: &PageId) -> PageMut {
+            let mut page = PageMut::pristine_empty(&self.page_pool, page_id);
+            let n = self.counter.get();
+            self.counter.set(n + 1);
+            for i in 0..126usize {
+                let mut node = [0u8; 32];
+                match self.garbage {
+                    0 => {}
+                    1 => node = [0xff; 32],
+                    2 => node = [0x55; 32],
+                    3 => {
+                        // a mix of leaf-like, internal-like and terminator slots
+                        let x = (n.wrapping_mul(0x9E37_79B9_7F4A_7C15) >> 7).wrapping_add(i as u64 * 0x51);
+                        match x % 3 {
+                            0 => node = [0x80 | (x as u8 & 0x7f); 32],
+                            1 => node = [1 + (x as u8 & 0x3f); 32],
+                            _ => {}
+                        }
+                    }
+                    // whatever the pool hands out
+                    _ => continue,
+                }
+                page.set_node(i, node);
+            }
+            page
+        }
+
+        fn contains(&self, page_id: &PageId) -> bool {
+            self.map.contains_key(page_id)
+        }
+
+        fn get(&self, page_id: &PageId) -> Option<(Page, PageOrigin)> {
+            self.map.get(page_id).map(|(p, o)| (p.clone(), o.clone()))
+        }
+
+        fn insert(&mut self, page_id: PageId, page: Page, page_origin: PageOrigin) {
+            self.map.insert(page_id, (page, page_origin));
+        }
+    }
+
+    /// What the walker reported for one page of a batch.
+    pub struct Update {
+        pub page_id: Vec<u8>,
+        /// The diff has the clear bit: the page is removed from the store.
+        pub cleared: bool,
+        /// `BucketInfo::Fresh`: a new bucket would be allocated.
+        pub fresh: bool,
+        /// The page was in the store before the batch.
+        pub was_stored: bool,
+        /// The changed slots (`None` when cleared).
+        pub diff: Option<[u8; 16]>,
+    }
+
+    pub struct BatchOutput {
+        pub root: Node,
+        pub updates: Vec<Update>,
+        /// Number of terminals handed to the walker below the root page / to the root page walker,
+        /// child page roots placed, pages reconstructed by seeking.
+        pub terminals: usize,
+        pub root_terminals: usize,
+        pub child_roots: usize,
+        pub reconstructed: usize,
+    }
+
+    enum Pending {
+        Node(Node),
+        SubTrie(Vec<(KeyPath, Option<ValueHash>)>, Option<trie::LeafData>),
+    }
+
+    pub struct Session<H> {
+        page_pool: PagePool,
+        root: Node,
+        store: HashMap<PageId, Page>,
+        keys: BTreeMap<KeyPath, ValueHash>,
+        garbage: u8,
+        fresh_counter: u64,
+        _marker: std::marker::PhantomData<H>,
+    }
+
+    impl<H: NodeHasher> Session<H> {
+        pub fn new(garbage: u8) -> Self {
+            Session {
+                page_pool: PagePool::new(),
+                root: trie::TERMINATOR,
+                store: HashMap::new(),
+                keys: BTreeMap::new(),
+                garbage,
+                fresh_counter: 0,
+                _marker: std::marker::PhantomData,
+            }
+        }
+
+        pub fn root(&self) -> Node {
+            self.root
+        }
+
+        /// All stored pages: page id path, page bytes, the elided children bitfield.
+        pub fn pages(&self) -> Vec<(Vec<u8>, Vec<u8>, u64)> {
+            let mut v: Vec<_> = self
+                .store
+                .iter()
+                .map(|(id, page)| {
+                    (
+                        id.length_dependent_encoding().to_vec(),
+                        page.page_data()[..].to_vec(),
+                        u64::from_le_bytes(page.elided_children().to_bytes()),
+                    )
+                })
+                .collect();
+            v.sort();
+            v
+        }
+
+        fn subtrie_items(&self, pos: &TriePosition) -> Vec<(KeyPath, ValueHash)> {
+            let mut start = [0u8; 32];
+            start.view_bits_mut::<Msb0>()[..pos.depth() as usize].copy_from_bitslice(pos.path());
+            self.keys
+                .range(start..)
+                .take_while(|(k, _)| pos.subtrie_contains(k))
+                .map(|(k, v)| (*k, *v))
+                .collect()
+        }
+
+        fn leaf_at(&self, pos: &TriePosition) -> Option<trie::LeafData> {
+            // as `begin_leaf_fetch`: the first item of the range below the position.
+            let (key_path, value_hash) = self
+                .subtrie_items(pos)
+                .into_iter()
+                .next()
+                .unwrap_or_else(|| panic!("leaf must exist position={}", pos.path()));
+            Some(trie::LeafData {
+                key_path,
+                value_hash,
+            })
+        }
+
+        // `SeekRequest::new` + `continue_seek` over the store instead of the page cache / disk.
+        fn seek(
+            &self,
+            ws: &mut WorkSet,
+            key: &KeyPath,
+            reconstructed: &mut usize,
+        ) -> (TriePosition, Option<PageId>, Option<trie::LeafData>) {
+            let mut pos = TriePosition::new();
+            if trie::is_terminator::<H>(&self.root) {
+                return (pos, None, None);
+            } else if trie::is_leaf::<H>(&self.root) {
+                let leaf = self.leaf_at(&pos);
+                return (pos, None, leaf);
+            }
+            let mut page_id = ROOT_PAGE_ID;
+            loop {
+                let page = match ws.get(&page_id) {
+                    Some((page, _)) => page,
+                    None => {
+                        let page = self.store.get(&page_id).cloned().unwrap_or_else(|| {
+                            panic!(
+                                "verif: seek reached page {:?} which is neither stored nor reconstructed",
+                                page_id.length_dependent_encoding()
+                            )
+                        });
+                        ws.insert(
+                            page_id.clone(),
+                            page.clone(),
+                            PageOrigin::Persisted(BucketInfo::Dependent(
+                                SharedMaybeBucketIndex::new(None),
+                            )),
+                        );
+                        page
+                    }
+                };
+                assert!(pos.depth() as usize % DEPTH == 0);
+                let bits: Vec<bool> = key.view_bits::<Msb0>()[pos.depth() as usize..]
+                    .iter()
+                    .by_vals()
+                    .take(DEPTH)
+                    .collect();
+                for bit in bits {
+                    pos.down(bit);
+                    let cur_node = page.node(pos.node_index());
+                    if trie::is_leaf::<H>(&cur_node) {
+                        let leaf = self.leaf_at(&pos);
+                        return (pos, Some(page_id), leaf);
+                    } else if trie::is_terminator::<H>(&cur_node) {
+                        return (pos, Some(page_id), None);
+                    }
+                }
+                let child_page_id = page_id.child_page_id(pos.child_page_index()).unwrap();
+                if page.elided_children().is_elided(pos.child_page_index())
+                    && !ws.contains(&child_page_id)
+                {
+                    let items = self.subtrie_items(&pos);
+                    let maybe_pages =
+                        reconstruct_pages::<H>(&page, page_id.clone(), pos.clone(), ws, items);
+                    if let Some(pages) = maybe_pages {
+                        for (id, page, diff, page_leaves_counter, children_leaves_counter) in pages
+                        {
+                            *reconstructed += 1;
+                            ws.insert(
+                                id,
+                                page,
+                                PageOrigin::Reconstructed {
+                                    page_leaves_counter,
+                                    children_leaves_counter,
+                                    diff,
+                                },
+                            );
+                        }
+                    }
+                }
+                page_id = child_page_id;
+            }
+        }
+
+        /// One commit: ascending distinct keys, `None` = read, `Some(None)` = delete,
+        /// `Some(Some(value hash))` = put.
+        pub fn apply(&mut self, batch: &[(KeyPath, Option<Option<ValueHash>>)]) -> BatchOutput {
+            let mut ws = WorkSet {
+                page_pool: self.page_pool.clone(),
+                map: HashMap::new(),
+                garbage: self.garbage,
+                counter: std::cell::Cell::new(self.fresh_counter),
+            };
+            let mut out = BatchOutput {
+                root: self.root,
+                updates: Vec::new(),
+                terminals: 0,
+                root_terminals: 0,
+                child_roots: 0,
+                reconstructed: 0,
+            };
+            let mut pending: Vec<(TriePosition, Pending)> = Vec::new();
+            let mut walker = PageWalker::<H>::new(self.root, Some(ROOT_PAGE_ID));
+
+            // `RangeUpdater::update` / `handle_completion` for the only worker.
+            let mut i = 0;
+            while i < batch.len() {
+                let (pos, page_id, terminal) = self.seek(&mut ws, &batch[i].0, &mut out.reconstructed);
+                let mut j = i;
+                let mut ops = Vec::new();
+                while j < batch.len() && pos.subtrie_contains(&batch[j].0) {
+                    if let Some(v) = batch[j].1 {
+                        ops.push((batch[j].0, v));
+                    }
+                    j += 1;
+                }
+                assert!(j > i);
+                let has_writes = !ops.is_empty();
+                let non_exclusive = page_id.as_ref().map_or(true, |p| p == &ROOT_PAGE_ID);
+                if non_exclusive {
+                    out.root_terminals += 1;
+                    pending.push((pos, Pending::SubTrie(ops, terminal)));
+                } else if has_writes {
+                    out.terminals += 1;
+                    let ops = nomt_core::update::leaf_ops_spliced(terminal, &ops);
+                    walker.advance_and_replace(&ws, pos, ops);
+                } else {
+                    walker.advance(pos);
+                }
+                i = j;
+            }
+
+            let (new_nodes, updates) = match walker.conclude() {
+                Output::ChildPageRoots(new_nodes, updates) => (new_nodes, updates),
+                Output::Root(_, _) => unreachable!(),
+            };
+            assert!(!updates.iter().any(|item| item.page_id == ROOT_PAGE_ID));
+            out.child_roots = new_nodes.len();
+            for (pos, node) in new_nodes {
+                pending.push((pos, Pending::Node(node)));
+            }
+            pending.sort_unstable_by(|a, b| a.0.path().cmp(b.0.path()));
+
+            // `worker::update` for the worker that holds the root page.
+            let mut root_walker = PageWalker::<H>::new(self.root, None);
+            if let Some(root_page) = self.store.get(&ROOT_PAGE_ID) {
+                ws.insert(
+                    ROOT_PAGE_ID,
+                    root_page.clone(),
+                    PageOrigin::Persisted(BucketInfo::Dependent(SharedMaybeBucketIndex::new(
+                        None,
+                    ))),
+                );
+            }
+            for (pos, op) in pending {
+                match op {
+                    Pending::Node(node) => root_walker.advance_and_place_node(&ws, pos, node),
+                    Pending::SubTrie(ops, terminal) => {
+                        let ops = nomt_core::update::leaf_ops_spliced(terminal, &ops);
+                        root_walker.advance_and_replace(&ws, pos, ops);
+                    }
+                }
+            }
+            let (new_root, root_updates) = match root_walker.conclude() {
+                Output::Root(new_root, updates) => (new_root, updates),
+                Output::ChildPageRoots(_, _) => unreachable!(),
+            };
+
+            // what `bitbox::prepare_sync` + `PageCache::batch_update` do with the pages.
+            for UpdatedPage {
+                page_id,
+                page,
+                diff,
+                bucket_info,
+            } in updates.into_iter().chain(root_updates)
+            {
+                let cleared = diff.cleared();
+                out.updates.push(Update {
+                    page_id: page_id.length_dependent_encoding().to_vec(),
+                    cleared,
+                    fresh: matches!(bucket_info, BucketInfo::Fresh),
+                    was_stored: self.store.contains_key(&page_id),
+                    diff: if cleared {
+                        None
+                    } else {
+                        Some(PageDiff::as_bytes(&diff))
+                    },
+                });
+                if cleared {
+                    self.store.remove(&page_id);
+                } else {
+                    self.store.insert(page_id, page.freeze());
+                }
+            }
+            for (key, op) in batch {
+                match op {
+                    Some(Some(value_hash)) => {
+                        self.keys.insert(*key, *value_hash);
+                    }
+                    Some(None) => {
+                        self.keys.remove(key);
+                    }
+                    None => {}
+                }
+            }
+            self.fresh_counter = ws.counter.get();
+            self.root = new_root;
+            out.root = new_root;
+            out
+        }
+    }
+}
+
 #[cfg(test)]
 mod tests {
     use super::{
